@@ -386,7 +386,15 @@ var (
 )
 
 func c19MixRun(c c19MixCase) Verdict {
-	r := harness.NewRig(harness.Config{}, harness.Script{})
+	cfg := harness.Config{}
+	upgrades := contains(c.Lines, "STARTTLS")
+	if upgrades {
+		// the upgrade is part of the connection: what was counted before it
+		// still counts after it (lock-step only, a handshake has to follow)
+		cfg.TLS = "starttls"
+		c.Pipeline = false
+	}
+	r := harness.NewRig(cfg, harness.Script{})
 	w, _ := r.Dial()
 	if st := w.WaitQuiet(); st != harness.QIdle {
 		w.Finish()
@@ -406,6 +414,13 @@ func c19MixRun(c c19MixCase) Verdict {
 			outs = append(outs, o)
 			if st == harness.QClosed {
 				break
+			}
+			if l == "STARTTLS" && bytes.HasPrefix(o, []byte("220 ")) {
+				if err := w.StartTLS(); err != nil {
+					w.Finish()
+					return Verdict{Inconclusive: "handshake: " + err.Error()}
+				}
+				w.WaitQuiet()
 			}
 			if st != harness.QIdle {
 				w.Finish()
@@ -436,6 +451,9 @@ func c19MixRun(c c19MixCase) Verdict {
 		}
 	}
 	v := Verdict{NonTrivial: nerr >= 3, Classes: []string{fmt.Sprintf("errors_%d", min(nerr, 4))}}
+	if upgrades {
+		v.Classes = append(v.Classes, "errors_around_starttls")
+	}
 	// count reply *lines* leniently (the EHLO reply is multi-line; control
 	// octets may be echoed): a reply ends at a line whose 4th octet is SP
 	out := w.Out
@@ -535,7 +553,7 @@ func init() {
 
 func TestC19(t *testing.T) {
 	registerAll()
-	st.Rule = "cases = probe lines of total length L-3..L+4, 2L, 3L at five conversation positions, lock-step and pipelined, whole or in two segments; endless (1 MiB, no LF) lines with octets consumed measured on the in-memory network; all strings up to the length bound over {NUL,CR,LF,SP,'A','a',':','<'} as raw input; mixes of valid, state-refused and malformed commands around the error threshold; random blobs of command fragments and raw octets; non-trivial = probe within 3 of L OR input with NUL/CR OR >= 3 errors OR endless line; distinct = hash of the whole case"
+	st.Rule = "cases = probe lines of total length L-3..L+4, 2L, 3L at five conversation positions, lock-step and pipelined, whole or in two segments; endless (1 MiB, no LF) lines with octets consumed measured on the in-memory network; all strings up to the length bound over {NUL,CR,LF,SP,'A','a',':','<'} as raw input; mixes of valid, state-refused and malformed commands around the error threshold, optionally with a STARTTLS upgrade in between; random blobs of command fragments and raw octets; non-trivial = probe within 3 of L OR input with NUL/CR OR >= 3 errors OR endless line; distinct = hash of the whole case"
 	if !regress(t, "C19") {
 		return
 	}
@@ -597,6 +615,10 @@ func TestC19(t *testing.T) {
 			default:
 				lines = append(lines, rapid.SampledFrom(c19Errors).Draw(rt, "error"))
 			}
+		}
+		if rapid.IntRange(0, 3).Draw(rt, "starttls") == 0 {
+			at := rapid.IntRange(0, len(lines)).Draw(rt, "starttls_at")
+			lines = append(lines[:at], append([]string{"STARTTLS"}, lines[at:]...)...)
 		}
 		return c19MixCase{Lines: lines, Pipeline: rapid.Bool().Draw(rt, "pipeline")}
 	})
